@@ -24,8 +24,9 @@ for root, dirs, files in os.walk(W):
         if not os.path.exists(dst):
             os.makedirs(os.path.dirname(dst), exist_ok=True); shutil.copy(p, dst); print("copied", rel)
 # 3. registration lines
+BASE = open(os.path.join(W, ".base")).read().strip() if os.path.exists(os.path.join(W, ".base")) else "207d2da"
 def added_lines(rel):
-    base = sh("git", "-C", "/verif", "show", f"207d2da:{rel}").stdout.splitlines()
+    base = sh("git", "-C", "/verif", "show", f"{BASE}:{rel}").stdout.splitlines()
     cur = open(os.path.join(W, rel)).read().splitlines()
     return [l for l in cur if l not in base]
 # main.rs
